@@ -834,6 +834,35 @@ func (env *Env) evalCall(x *ECall) (*Val, error) {
 				return nil, fmt.Errorf("typeof needs an interface value")
 			}
 			return mathVal(v.L[0].T, "Int"), nil
+		case "zero":
+			if len(x.Args) == 1 {
+				if tl, ok := x.Args[0].(*ETypeLit); ok {
+					gt, err := e.resolveGoType(tl.T, env.pkgPath, env.imports)
+					if err != nil {
+						return nil, err
+					}
+					return e.zeroVal(gt), nil
+				}
+			}
+			return nil, fmt.Errorf("zero() needs type(T)")
+		case "unbox":
+			if len(x.Args) == 2 {
+				if tl, ok := x.Args[1].(*ETypeLit); ok {
+					gt, err := e.resolveGoType(tl.T, env.pkgPath, env.imports)
+					if err != nil {
+						return nil, err
+					}
+					v, err := env.eval(x.Args[0])
+					if err != nil {
+						return nil, err
+					}
+					if len(v.L) != 2 {
+						return nil, fmt.Errorf("unbox needs an interface value")
+					}
+					return e.unboxAs(env.st, v.L[1].T, gt), nil
+				}
+			}
+			return nil, fmt.Errorf("unbox(x, type(T))")
 		case "payload":
 			v, err := env.eval(x.Args[0])
 			if err != nil {
@@ -1101,6 +1130,20 @@ func (env *Env) havocTarget(st *State, x Expr) error {
 	case *ECall:
 		if id, ok := x.Fun.(*EIdent); ok && len(x.Args) == 1 {
 			switch id.Name {
+			case "elems":
+				// every element of every slice/array backing of this element type
+				if tl, ok := x.Args[0].(*ETypeLit); ok {
+					gt, err := e.resolveGoType(tl.T, env.pkgPath, env.imports)
+					if err != nil {
+						return err
+					}
+					for _, lf := range e.TI.shape(gt) {
+						k := "S|" + typeStr(gt) + "|" + lf.Path
+						e.heapGet(st, k, "(Array Int (Array Int "+lf.Sort+"))")
+						e.heapHavoc(st, k)
+					}
+					return nil
+				}
 			case "contents":
 				v, err := env.eval(x.Args[0])
 				if err != nil {
